@@ -9,6 +9,12 @@ View == <<inst, wr, marks>>
 \* what a complete history is worth replaying: it used at least one returned wrapper
 Interesting == Len(hist) >= 3
 
+\* configurations with wrappers without object: only histories that have one, or re-run __init__
+EmptyDumpConstraint ==
+  IF DumpFile # "" /\ AllDropped /\ Len(hist) >= 3 /\ \E n \in 1..Len(hist) : hist[n].op \in {"NewEmpty", "ReInit"}
+    THEN CSVWrite("%1$s", <<ToJson([steps |-> hist])>>, DumpFile)
+    ELSE TRUE
+
 DumpConstraint ==
   IF DumpFile # "" /\ AllDropped /\ Interesting
     THEN CSVWrite("%1$s", <<ToJson([steps |-> hist])>>, DumpFile)
